@@ -4,6 +4,7 @@ from corr.corrlib import CorrSim, Q
 
 ID = 'C13'
 TARGETS = ['SmppVerif.Props.C13']
+THOROUGH_ROUNDS = 10
 RULE = ('sequence generator: start states min-1, min, mid, max-2, max-1, max and custom ranges, runs across the wrap; '
         'assert_valid_sequence at the limits; matching: histories of put(submit | enquire_link | unbind | bind) and '
         'responses through the real ESME._handle_response in any order with duplicates, unknown numbers, wrong types, '
